@@ -11,7 +11,6 @@ import (
 	"sync"
 	"sync/atomic"
 	"testing"
-	"testing/synctest"
 	"time"
 
 	"github.com/bronlabs/bron-crypto/pkg/base"
@@ -58,6 +57,7 @@ func runC11(c *Ctx) {
 		c11Exhaustive(c, t)
 		c11Random(c, t)
 		c11Flood(c, t)
+		c11Lifetimes(c, t)
 		c11Echo(c, t)
 		c11Runner(c, t)
 	})
@@ -329,109 +329,46 @@ func c11RenderResults(results map[int]string) string {
 	return strings.Join(parts, ";")
 }
 
-// c11RunTrace drives the real Router through the events, one at a time, waiting for quiescence
-// (synctest.Wait: every goroutine of the bubble durably blocked) after every hand-over, so that
-// the execution is one deterministic linearisation.  Result: "<rid>@<event index>=<outcome>;…".
-func c11RunTrace(t *testing.T, members []uint64, evs []c11Event) (out string) {
-	defer func() {
-		if e := recover(); e != nil {
-			out = "panic:" + strings.ReplaceAll(fmt.Sprint(e), " ", "_")
-		}
-	}()
-	synctest.Test(t, func(t *testing.T) {
-		d := newC11Delivery(1, members, 0)
-		root := network.NewRouter(d)
-		var queue []c11In
-		var recs []*c11Rec
-		results := map[int]string{}
-		settle := func(k int) {
-			synctest.Wait()
-			for {
-				for _, r := range recs {
-					if r.ret {
-						continue
-					}
-					select {
-					case res := <-r.done:
-						r.ret = true
-						results[r.rid] = fmt.Sprintf("%d@%d=%s", r.rid, k, res)
-					default:
-					}
-				}
-				if len(queue) > 0 && d.waiting.Load() {
-					m := queue[0]
-					queue = queue[1:]
-					d.hand <- m
-					synctest.Wait()
-					continue
-				}
-				return
-			}
-		}
-		for k, e := range evs {
-			switch e.kind {
-			case 'd', 'g', 'e', 'f':
-				queue = append(queue, c11Items(e)...)
-			case 'r':
-				ctx, cancel := context.WithCancel(context.Background())
-				if e.pre {
-					cancel()
-				}
-				r := &c11Rec{rid: e.rid, done: make(chan string, 1), cancel: cancel}
-				recs = append(recs, r)
-				view := c11View(root, e.path)
-				ids := make([]sharing.ID, len(e.exp))
-				for i, id := range e.exp {
-					ids[i] = sharing.ID(id)
-				}
-				local := e.local
-				go func() {
-					r.done <- safely(func() string { return c11Res(view.ReceiveFrom(ctx, local, ids...)) })
-				}()
-			case 'c':
-				for _, r := range recs {
-					if r.rid == e.rid {
-						r.cancel()
-					}
-				}
-			case 'x':
-				root.Close()
-			}
-			settle(k)
-		}
-		for _, r := range recs {
-			if !r.ret {
-				results[r.rid] = fmt.Sprintf("%d@-=blocked", r.rid)
-			}
-		}
-		out = c11RenderResults(results)
-		// release everything so that the bubble can end
-		for _, r := range recs {
-			r.cancel()
-		}
-		root.Close()
-		synctest.Wait()
-		for _, r := range recs {
-			if !r.ret {
-				select {
-				case <-r.done:
-				default:
-					out += ";leak:" + strconv.Itoa(r.rid) // a receive that survives cancel+Close
-				}
-			}
-		}
-	})
-	return out
+// c11RunTrace drives the real Router through the events (see c11Drive in c11_life.go).
+// Result: "<rid>@<event index>=<outcome>;…" followed, when the router's accounting state is
+// observable, by "|b=<buffered after every event>|x=<number of mailbox objects after every event>".
+func c11RunTrace(t *testing.T, members []uint64, evs []c11Event) (out string, o c11Outcome) {
+	o = c11Drive(t, members, evs)
+	if o.panicked != "" {
+		return "panic:" + o.panicked, o
+	}
+	out = c11RenderResults(o.results)
+	for _, rid := range o.leaked {
+		out += ";leak:" + strconv.Itoa(rid) // a receive that survives cancel+Close
+	}
+	if o.observed {
+		out += "|b=" + c11Ints(o.buf) + "|x=" + c11Ints(o.box)
+	}
+	return out, o
+}
+
+func c11Ints(xs []int) string {
+	parts := make([]string, len(xs))
+	for i, x := range xs {
+		parts[i] = strconv.Itoa(x)
+	}
+	return joinComma(parts)
 }
 
 func c11EmitTrace(c *Ctx, t *testing.T, members []uint64, evs []c11Event) string {
 	lhs := fmt.Sprintf("tr %s %d %s", c11IDs(members), c11Bound, c11Tokens(evs))
 	c11Tick(lhs)
-	res := c11RunTrace(t, members, evs)
+	res, o := c11RunTrace(t, members, evs)
 	if strings.HasPrefix(res, "panic:") || strings.Contains(res, "leak:") {
 		c.Violation("router trace " + lhs + " => " + res)
 	}
+	if o.accViol != "" {
+		c.Violation("router accounting: " + o.accViol + " in trace " + lhs)
+	}
 	c.Emit(lhs, res)
+	if i := strings.Index(res, "|"); i >= 0 {
+		res = res[:i]
+	}
 	for _, part := range strings.Split(res, ";") {
 		if i := strings.Index(part, "="); i >= 0 {
 			kind := part[i+1:]
@@ -818,6 +755,12 @@ func c11Stress(c *Ctx) {
 		wg.Wait()
 		hung := ctx.Err() != nil
 		cancel()
+		// the accounting invariant holds whenever mu is free, under any schedule
+		if pk := newC11Peek(root); pk.ok {
+			if b, _, held := pk.read(true); b != held {
+				c.Violation(fmt.Sprintf("router accounting: the counter says buffered=%d but the mailboxes hold %d undelivered messages after %s", b, held, lhs))
+			}
+		}
 		root.Close()
 		res := strings.Join(results, ";")
 		if hung {
